@@ -20,7 +20,10 @@ PARTIAL = [
 
 FILES = ["a.c", "b.h", "my file.c", "x.y.c", "m.cc", "n.hh", "o.C", "p.c.bak", "README", "q.H", ".hid.c", "r.h", "s.c", "c", "h", "t.ch"]
 DIRS = ["src", "inc", "d.c", "lib.h", ".git2", "sp ace", "e", "deep", "x.c"]
+LINKS = ["ln.c", "lnk.h", "note", "l.k.c"]
 CONTENT = "int\tg_x;\n"
+# options that say nothing about which files are requested, before or after the paths
+OPTIONS = [["-R", "CheckDefine"], ["-R", "CheckForbiddenSourceHeader"], ["--no-colors"], ["-f", "json"]]
 
 
 def gen_tree(rng, depth=0):
@@ -32,6 +35,13 @@ def gen_tree(rng, depth=0):
         if n not in names:
             names.add(n)
             out.append((n, None))
+    # a symbolic link to a regular file is a file under the link's own name
+    plain = [n for n, c in out if c is None]
+    if plain and rng.random() < 0.35:
+        n = rng.choice(LINKS)
+        if n not in names:
+            names.add(n)
+            out.append((n, "->" + rng.choice(plain)))
     if depth < 3:
         for _ in range(rng.randint(0, 2 if depth else 3)):
             n = rng.choice(DIRS)
@@ -47,6 +57,8 @@ def materialise(tree, root):
         if ch is None:
             with open(p, "w") as f:
                 f.write(CONTENT)
+        elif isinstance(ch, str):
+            os.symlink(ch[2:], p)
         else:
             os.makedirs(p)
             materialise(ch, p)
@@ -55,8 +67,8 @@ def materialise(tree, root):
 def entries(tree, prefix=()):
     out = []
     for name, ch in tree:
-        out.append((prefix + (name,), ch is not None))
-        if ch is not None:
+        out.append((prefix + (name,), isinstance(ch, list)))
+        if isinstance(ch, list):
             out += entries(ch, prefix + (name,))
     return out
 
@@ -131,11 +143,23 @@ def run(res, tier, br, model_ok=True, search=False):
             argv = gen_argv(rng, ents) if k % 6 else []
             args = ["/".join(a) for a in argv]
             use_sub = k % 25 == 0
-            out = (run_cli(["-f", "json"] + args, root) if use_sub else main_inprocess(["-f", "json"] + args, root))
+            before, after = [], []
+            for o in OPTIONS[:3]:
+                r = rng.random()
+                if r < 0.2:
+                    before += o
+                elif r < 0.4:
+                    after += o
+            if rng.random() < 0.5:
+                before = ["-f", "json"] + before
+            else:
+                after = after + ["-f", "json"]
+            full_argv = before + args + after
+            out = (run_cli(full_argv, root) if use_sub else main_inprocess(full_argv, root))
             res.count("select", 1, subprocess=int(use_sub))
             if len(argv) >= 2:
                 res.nontriv((str(tree), str(argv)))
-            rp = {"kind": "select", "tree": tree, "argv": args}
+            rp = {"kind": "select", "tree": tree, "argv": args, "full_argv": full_argv}
             if out.get("exc") or out.get("hang") or out.get("exit") is None:
                 res.report(out.get("exc") or "hang@main", f"run on {args} did not end with an exit status", rp)
                 continue
@@ -177,7 +201,7 @@ def run(res, tier, br, model_ok=True, search=False):
                     res.report("messages", f"{args}: messages {msgs}, expected {wmsgs}", rp)
             # humanized run: base names only
             if not abort and k % 4 == 0:
-                h = main_inprocess(args, root)
+                h = main_inprocess([x for x in full_argv if x not in ("-f", "json")], root)
                 heads = [l[: l.rfind(": ")] for l in h["stdout"].split("\n") if l.endswith(": OK!") or l.endswith(": Error!")]
                 if sorted(heads) != sorted(os.path.basename(p) for p in (want or [])):
                     res.report("basename", f"{args}: verdict lines {heads} vs base names of {want}", rp)
@@ -250,10 +274,10 @@ def replay(rp):
     d = tempfile.mkdtemp(prefix="verif_c15r_")
     try:
         def conv(t):
-            return [(n, None if c is None else conv(c)) for n, c in t]
+            return [(n, c if (c is None or isinstance(c, str)) else conv(c)) for n, c in t]
         tree = conv(rp["tree"])
         materialise(tree, d)
-        out = main_inprocess(["-f", "json"] + rp["argv"], d)
+        out = main_inprocess(rp.get("full_argv") or (["-f", "json"] + rp["argv"]), d)
         print("argv  :", rp["argv"]); print("stdout:", out["stdout"][:800]); print("exit  :", out["exit"])
         want, wmsgs, abort = expected_by_walk(d, [tuple(a.split("/")) for a in rp["argv"]])
         print("expected selection:", want, "messages:", wmsgs, "abort:", abort)
